@@ -912,17 +912,19 @@ def c16(ctx):
         rows = [r for r in GENS[fmt](ctx, "lang", quick=True) if r["class"] == "complete" and len(r["doc"]) >= 2]
         rnd.shuffle(rows)
         for j, r in enumerate(rows[: 1500 if ctx.quick else 10000]):
-            entry = ["parse", "reader", "decbytes"][j % 3]
-            kw = sched_variants(ctx, r["doc"], entry, rnd) if entry == "reader" else {}
-            kw.pop("eofwith", None)
+            entry = ["parse", "reader", "decbytes", "reader", "decreader"][j % 5]
+            kw = sched_variants(ctx, r["doc"], entry, rnd) if entry in ("reader", "decreader") else {}
+            if entry in ("reader", "decreader"):
+                kw["eofwith"] = (j // 5) % 2 == 0       # the reader hands over its last bytes together with io.EOF / before it
             cases.append(case("C16", "fault", fmt, doc=r["doc"], entry=entry, sub=dict(target="parser"), origin="Gen", **kw))
         # ... and the documents whose tokens take the parsers' other delivery paths: texts and member names of every length
         # around the internal buffers (plain, escaped, ill-formed, multi-byte), adjacent tokens, marker-valued bytes, deep nesting
         extra = sweep_docs(fmt, True)[:: 2 if ctx.quick else 1] + token_pair_docs(fmt) + [d for d in deep_docs(fmt) if len(d) <= 200]
         for j, doc in enumerate(extra):
-            entry = ["parse", "reader", "decbytes"][j % 3]
-            kw = sched_variants(ctx, doc, entry, rnd) if entry == "reader" else {}
-            kw.pop("eofwith", None)
+            entry = ["parse", "reader", "decbytes", "reader", "decreader"][j % 5]
+            kw = sched_variants(ctx, doc, entry, rnd) if entry in ("reader", "decreader") else {}
+            if entry in ("reader", "decreader"):
+                kw["eofwith"] = (j // 5) % 2 == 0
             cases.append(case("C16", "fault", fmt, doc=doc, entry=entry, sub=dict(target="parser"), origin="length sweep / adjacent tokens / deep nesting", **kw))
     # Fold as a producer: TLC-enumerated Go programs into a failing visitor
     rows = gen_gotypes(ctx, quick=True)
@@ -1100,6 +1102,27 @@ def c17(ctx):
                         continue
                     cases.append(case("C17", "reuse", fmt, stream=alpha[pi], opts=dict(html=True, radix=False, ignf=True),
                                       sub=dict(component="enc", history=[alpha[i] for i in hist]), origin="enc history %s" % (hist,)))
+    # ---- scalars that stretch the encoders' scratch space (longest float and integer texts, every escape class) in every
+    # order: what one value leaves behind in a scratch buffer meets the text of the next
+    import struct as _st
+    ev = streams.ev
+    scal = [[ev("f64", "f64", list(_st.pack(">d", f)))] for f in (1.7976931348623157e308, -2.2250738585072014e-308, 1.234567890123456e-07, 0.1)]
+    scal += [[ev("f32", "f32", streams.f32(x))] for x in (3.4028234663852886e38, 1e-45)]
+    scal += [[ev("int", "int64", streams.canon(-2 ** 63))], [ev("int", "uint64", streams.canon(2 ** 64 - 1))]]
+    scal += [[ev("str", ty, list(t))] for t in (b"<>&", b'"\\/\b\f\n\r\t', b"\x00\x1f\x7f", "\u00e9\u20ac<".encode()) for ty in ("str", "strref")]
+    scal += [[ev("objS", "objS", (), 1, "any"), ev("key", "key", list(b"<\x01&")), ev("str", "str", list(b">\x02")), ev("objE", "objE")],
+             [ev("arrS", "arrS", (), -1, "any"), ev("f64", "f64", list(_st.pack(">d", -1.7976931348623157e308))), ev("str", "str", list(b"\x03<")), ev("arrE", "arrE")]]
+    for fmt in ("json", "ubjson", "cborl"):
+        for h in range(1, 3 if ctx.quick else 4):
+            for hist in itertools.product(range(len(scal)), repeat=h):
+                if h >= 2 and fmt != "json" and rnd.random() < 0.8:
+                    continue
+                if h >= 3 and rnd.random() < 0.9:
+                    continue
+                for pi in range(len(scal)):
+                    for o in ((dict(html=True, radix=False, ignf=True), dict(html=False, radix=True, ignf=False)) if fmt == "json" else (dict(OPTS0),)):
+                        cases.append(case("C17", "reuse", fmt, stream=scal[pi], opts=dict(o), sub=dict(component="enc", history=[scal[i] for i in hist]),
+                                          origin="enc scratch-space history %s" % (hist,)))
     # ---- every TLC-enumerated stream (all slot fillings the other checks use) once as history and probe of an encoder:
     # the idle depth must be reached after ANY stream, not only after those of the alphabet
     every = []
@@ -1785,6 +1808,11 @@ def c20(ctx):
                                                                     keylen=(1024, 4096, 512, 256, 2048)[(n // 11) % 5]), origin="SFKeyCache, long member names"))
             if n % 7 == 0 and 0 in r["hist"]:    # the cache configured again between two documents (diagnostic LRU order not compared then)
                 cases.append(case("C20", "keycache", fmt, sub=dict(cap=r["cap"], hist=r["hist"], target=target, model_lru=[], sharedbuf=n % 2 == 0, reenable=True), origin="SFKeyCache, EnableKeyCache again"))
+    # capacities and numbers of distinct member names beyond anything a cache would preallocate
+    for n, (cap, N) in enumerate([(5000, 5200), (4097, 4100), (10000, 4500)] if ctx.quick else [(5000, 5200), (4097, 4100), (10000, 4500), (4096, 8200), (65536, 20000)]):
+        hist = list(range(1, N + 1)) + [0] + list(range(N, 0, -7)) + [0] + list(range(1, N + 1, 3))
+        for fmt, target in (("json", "int"), ("cborl", "ifc"), ("ubjson", "struct"))[: 3 if n == 0 else 1]:
+            cases.append(case("C20", "keycache", fmt, sub=dict(cap=cap, hist=hist, target=target, model_lru=[], sharedbuf=False, manykeys=True), origin="thousands of distinct member names"))
     number(cases)
     tf, st = core.run_harness(ctx, cases)
     failed, nv = core.tlc_validate(ctx, "TraceCodec", tf)
